@@ -4,6 +4,7 @@ import (
 	"encoding/json"
 	"fmt"
 	"os"
+	"os/exec"
 	"path/filepath"
 	"sort"
 	"strings"
@@ -222,6 +223,9 @@ func writeEvidence(opt *Options, rep *CheckReport, notCovered []string, violatio
 	for _, u := range rep.Uncontracted {
 		unc = append(unc, "uncontracted callee (results and heap havocked): "+u)
 	}
+	if b := runBounded(opt); b != nil {
+		cov["bounded_checks"] = b
+	}
 	cov["trusted_base"] = append(append([]string{"gocv VC generator (unverified)", "SMT solvers z3 4.8.12, z3-new 5.1.0, cvc5 1.0"}, tb...), unc...)
 	if _, ok := cov["samples"]; !ok {
 		cov["samples"] = []any{}
@@ -237,4 +241,31 @@ func writeEvidence(opt *Options, rep *CheckReport, notCovered []string, violatio
 	ass = append(ass, rep.Assumptions...)
 	ev := &Evidence{PropertyID: opt.Property, Tier: opt.Tier, Seed: opt.Seed, Level: "proof", Coverage: cov, Assumptions: ass, WallS: rep.Wall, Violations: violations}
 	writeJSON(filepath.Join(opt.VerifDir, "evidence", opt.Property+".json"), ev)
+}
+
+var boundedProps = map[string]bool{"C13": true, "C14": true, "C08": true, "C19": true, "C06": true, "C11": true, "C18": true}
+
+// runBounded runs the bounded validation of the trusted stdlib contracts (labelled bounded; never
+// counted as obligations). A failure there means an ASSUMPTION of the proofs is wrong and is printed loudly.
+func runBounded(opt *Options) any {
+	if !boundedProps[opt.Property] {
+		return nil
+	}
+	bin := filepath.Join(opt.VerifDir, "bin", "bounded")
+	if _, err := os.Stat(bin); err != nil {
+		return map[string]any{"label": "bounded", "error": "bin/bounded not built"}
+	}
+	n := "7"
+	if opt.Tier == "thorough" {
+		n = "9"
+	}
+	out, err := exec.Command(bin, "--len", n).Output()
+	var v any
+	if json.Unmarshal(out, &v) != nil {
+		return map[string]any{"label": "bounded", "error": fmt.Sprint(err)}
+	}
+	if err != nil {
+		fmt.Printf("warning: bounded validation of trusted stdlib contracts found counterexamples: %s\n", truncate(string(out), 600))
+	}
+	return v
 }
